@@ -139,7 +139,7 @@ TABLE = [
     ("t:rcm", 1, 2), ("t:rcm", 2, 12), ("t:rcm", 3, 8), ("t:rpm", 2, 3), ("t:rpair", 2, 2), ("t:rcliff", 3, 2),
     ("t:rcs", 2, 2), ("t:rpauli", 2, 1), ("t:rps", 2, 1), ("t:rpm", 3, 1), ("t:rcs", 3, 1), ("t:rpair", 3, 1),
     ("t:rcm", 4, 2), ("rps", 2, 3), ("rps", 1, 1), ("t:rps", 2, 1), ("rpm", 6, 1), ("rpauli", 6, 1), ("rcs", 5, 1),
-    ("rcs", 6, 1), ("rps", 5, 1), ("t:rcm", 5, 1), ("rcm", 4, 2), ("rpm", 4, 1),
+    ("rcs", 6, 1), ("rps", 5, 1), ("t:rcm", 5, 1), ("rcm", 4, 2), ("rpm", 4, 1), ("t:rpauli", 6, 2), ("t:rpm", 5, 1),
 ]
 
 
@@ -456,6 +456,16 @@ class RunClass(Run):
             if ps is not None and n >= 4:
                 for i, k in enumerate(sgn):
                     self.bin("signbit%d" % i, k)      # every sign bit individually fair
+            if pauli and n >= 2:
+                # relation between the classes of two sites, pooled over all pairs of sites (for
+                # independent uniform sites the relations of different pairs are independent too):
+                # (X-image letters equal?, Z-image letters equal?) has probabilities 1/6 1/6 1/6 1/2.
+                # Few degrees of freedom: sees a weak dependence between sites that the 36-bin
+                # joint table needs ten times the sample for
+                st_ = [(cls[2 * i][i], cls[2 * i + 1][i]) for i in range(n)]
+                for i in range(n):
+                    for j in range(i + 1, n):
+                        self.bin("siterel", (st_[i][0] == st_[j][0], st_[i][1] == st_[j][1]))
             if pauli and n >= 4:
                 # product maps on larger registers: every site carries one of the 6 single-qubit
                 # classes (x4 sign patterns), uniformly, and any two sites are independent
@@ -512,7 +522,7 @@ class RunClass(Run):
                 # uniform pure stabilizer state with probability (2^N-1)/(4^N-1), both signs alike
                 for k, P in enumerate(fixed_observables(n)):
                     self.bin("obs%d" % k, a.eigenvalue(P))
-            if s in ("rps", "t:rps", "onsite") and n >= 3 and a.rank == 0:
+            if s in ("rps", "t:rps", "onsite") and n >= 2 and a.rank == 0:
                 # product states: each site is in one of the 6 single-qubit stabilizer states,
                 # uniformly, and any two sites are independent (gauge-independent: read off the group)
                 site = []
@@ -523,9 +533,13 @@ class RunClass(Run):
                         self.bad("product_state_site_not_pure", site=q)
                     site.append(found[0])
                 for i in range(n):
-                    self.bin("sitestate:q%d" % i, site[i])
+                    if n >= 3:
+                        self.bin("sitestate:q%d" % i, site[i])
                     for j in range(i + 1, n):
-                        self.bin("sitestatepair:q%d:q%d" % (i, j), (site[i], site[j]))
+                        if n >= 3:
+                            self.bin("sitestatepair:q%d:q%d" % (i, j), (site[i], site[j]))
+                        # pooled over site pairs, few degrees of freedom (see 'siterel')
+                        self.bin("sitestaterel", (site[i][0] == site[j][0], site[i][1] == site[j][1]))
             if s in ("global", "brickwall", "mcirc") and n == 2:
                 self.bin("state", a.key())
             if s == "fcirc" and n == 2 and len(self.cfg["rand_qubits"]) == 2:
@@ -712,8 +726,14 @@ def batch_oracles(merged, mode):
                                              "sampler": sampler, "N": n, "regime": regime, "stat": stat, "n": total,
                                              "chi2": round(x2, 2), "threshold": round(thr, 2), "false_alarm_level": 1e-9}))
             continue
-        if stat.startswith("pairletter:") or stat.startswith("signpair:") or stat.startswith("obs"):
-            if stat.startswith("pairletter:"):
+        if stat.startswith("pairletter:") or stat.startswith("signpair:") or stat.startswith("obs") or stat in ("siterel", "sitestaterel"):
+            if stat == "sitestaterel":
+                law = {(True, True): 1, (True, False): 1, (False, True): 2, (False, False): 2}
+                what = "chi2 of (same axis, same sign) for two sites of a product state, pooled over site pairs"
+            elif stat == "siterel":
+                law = {(True, True): 1, (True, False): 1, (False, True): 1, (False, False): 3}
+                what = "chi2 of (X letters equal, Z letters equal) for two sites of a product map, pooled over site pairs"
+            elif stat.startswith("pairletter:"):
                 _, ri, rj, _q = stat.split(":")
                 i, j = int(ri[1:]), int(rj[1:])
                 law = pair_law(n, partner=(i ^ 1) == j)
@@ -735,7 +755,7 @@ def batch_oracles(merged, mode):
             x2 = sum((cnt.get(b, 0) - total * w / tot_w) ** 2 / (total * w / tot_w) for b, w in law.items() if w)
             thr = _threshold(sum(1 for w in law.values() if w) - 1)
             evaluated[0] += 1
-            rep = stat in ("pairletter:r0:r1:q0", "pairletter:r0:r2:q0", "signpair:r0:r1") or stat.startswith("obs")
+            rep = stat in ("pairletter:r0:r1:q0", "pairletter:r0:r2:q0", "signpair:r0:r1", "siterel", "sitestaterel") or stat.startswith("obs")
             if x2 > thr or rep:   # report representatives, and all failures
                 out.append((name, x2 <= thr, {"statistic": what, "sampler": sampler, "N": n, "regime": regime,
                                              "stat": stat, "n": total, "chi2": round(x2, 2), "threshold": round(thr, 2),
